@@ -13,6 +13,7 @@ use zksync_consensus_roles::validator;
 
 pub mod bft;
 pub mod log;
+pub mod pipe;
 
 /// One failure = one potential VIOLATION (or KNOWN-FINDING if `key` is listed in known_findings.txt).
 #[derive(Serialize, Clone, Debug)]
